@@ -21,6 +21,7 @@ EXPLANATION = (
     ' (D6) when a shift is applied in two parts - whole samples by np.roll and the remainder by the phase ramp - the rounding of the whole part (trunc / floor / round) and the remainder expression (s % 1 = s - floor(s); fmod; s - whole) agree, so that the parts add up for negative non-integer shifts.'
     ' (D3/D4 as built) the phase factor is evaluated on a path-sensitive substitution model: every factor of the exponent gets a layout (scalar / along the shift axis / per trace / 1-D / column) relative to the array it multiplies (the spectrum, or its (-1, nbins) view which is only valid when the path condition entails that the axis is last); the impulse or analytic ramp is normalised on the substituted exponent; (D1) no in-place statement acts on a value sharing storage with the shift argument.'
     ' (D6 roll-only) a path that returns np.roll(w, round(s)) needs a path condition establishing that s is exactly a whole number (s == round(s)); np.isclose has a relative tolerance and is reported.'
+    ' (D4 as built) library helpers called inside the analytic ramp are evaluated with their arguments substituted.'
 )
 ASSUMPTIONS = [
     "scipy.fft.rfft / irfft return fresh arrays; x *= y mutates x in place; np.put writes in place (model table)",
